@@ -277,8 +277,16 @@ def main():
                  TagChoices={0, 1}, UnsetTagged=True),
             dict(base, MaxObjs=3, NFns=1, KindSet={'config'}, TagChoices={0}, UnsetTagged=False)]
   else:
-    runs = [dict(base, MaxObjs=3, NFns=2, KindSet={'config', 'partial', 'list', 'dict', 'tuple'},
-                 TagChoices={0, 1}, UnsetTagged=True)]
+    # (sized with TLC alone: three objects of five kinds with tags and two callables are 4 M heaps, times
+    # sixty entry points)
+    runs = [dict(base, MaxObjs=3, NFns=1, NLeaves=1, KindSet={'config', 'list', 'dict'}, TagChoices={0},
+                 UnsetTagged=False),
+            dict(base, MaxObjs=2, NFns=2, KindSet={'config', 'partial', 'list', 'dict', 'tuple'},
+                 TagChoices={0, 1}, UnsetTagged=True),
+            dict(base, MaxObjs=3, NFns=1, NLeaves=1, KindSet={'config', 'partial', 'list', 'dict', 'tuple'},
+                 TagChoices={0}, UnsetTagged=False),
+            dict(base, MaxObjs=3, NFns=1, NLeaves=1, KindSet={'config', 'list'}, TagChoices={0, 1},
+                 UnsetTagged=True)]
   with common.scratch() as wd:
     disp = common.Dispatcher(work, chunk=40)
     res = None
